@@ -89,6 +89,23 @@ def _replay(stem, vals):
         s2 = s.atoms_extend(am.Atoms(atype=[1], pos=[[0.5, 0.5, 0.5]]), scale=True)
         if not (np.array_equal(s2.atoms.pos[:4], before) and np.allclose(s2.atoms.pos[4], [2, 2, 2])):
             msgs.append('atoms_extend(1 atom at relative (.5,.5,.5), scale=True) on a 4-atom system: positions %r' % s2.atoms.pos.tolist())
+        # copying accessors never alias, whatever the index kind
+        c = am.Atoms(atype=[1, 2, 1], pos=np.arange(9.).reshape(3, 3), charge=[0.5, 0.6, 0.7], stress=np.arange(12.).reshape(3, 2, 2))
+        for key in ('pos', 'charge', 'stress'):
+            for ix in (1, -1, slice(0, 2), [2, 0], [True, False, True]):
+                g = c.prop(key, index=ix)
+                if isinstance(g, np.ndarray) and np.shares_memory(g, c.view[key]):
+                    msgs.append('prop(%r, index=%r) returns an array sharing memory with the internal storage' % (key, ix))
+        # whole-atom writes go by property name
+        d1 = am.Atoms(atype=[1, 1, 1], pos=np.zeros((3, 3)))
+        d1.charge = [1., 2., 3.]
+        d1.energy = [10., 20., 30.]
+        src = am.Atoms(atype=[2], pos=[[5., 5., 5.]])
+        src.energy = [-7.]
+        src.charge = [0.25]
+        d1[1] = src
+        if d1.charge.tolist() != [1., 0.25, 3.] or d1.energy.tolist() != [10., -7., 30.]:
+            msgs.append('atoms[1] = source with the same properties acquired in another order: charge %r energy %r (expected [1, 0.25, 3] / [10, -7, 30])' % (d1.charge.tolist(), d1.energy.tolist()))
     except Exception as e:
         msgs.append('raised %s: %s' % (type(e).__name__, e))
     return (len(msgs) > 0, '; '.join(msgs[:3]) if msgs else 'float replay of Atoms contracts found no disagreement')
@@ -181,6 +198,38 @@ def accessors(E, L):
             E.prove('prop.set.indexed[%r].row%d' % (ix, r), same_elems(b.view['pos'][r], want))
         E.prove('prop.set.indexed[%r].other_properties_untouched' % (ix,), same_elems(b.view['charge'], vb['charge']) and same_elems(b.view['stress'], vb['stress']))
         wf(E, 'prop.set.indexed[%r]' % (ix,), b)
+    # whole-atom writes: rows are filled property BY NAME from the source (whatever the order in which the two objects acquired their properties), other rows untouched,
+    # the source unchanged; differing property sets are refused
+    for ix, rows in ((1, [1]), (-1, [2]), (slice(0, 2), [0, 1]), ([2, 0], [2, 0]), ([True, False, True], [0, 2])):
+        b, vb = sym_atoms(E, L, 'b')
+        en_b = E.reals('ben', (3,))
+        b.energy = en_b.copy()                                    # order in b: atype, pos, charge, stress, energy
+        nsrc = len(rows)
+        spos, sq, sen, sst = E.reals('spos', (nsrc, 3)), E.reals('sq', (nsrc,)), E.reals('sen', (nsrc,)), E.reals('sst', (nsrc, 2, 2))
+        src = Atoms(atype=[2] * nsrc, pos=spos.copy())
+        src.energy = sen.copy()                                   # order in src: atype, pos, energy, stress, charge
+        src.stress = sst.copy()
+        src.charge = sq.copy()
+        b[ix] = src
+        tagw = 'setitem[%r]' % (ix,)
+        for r in range(3):
+            if r in rows:
+                q = rows.index(r)
+                E.prove(tagw + '.written_row%d' % r, same_elems(b.view['pos'][r], spos[q]) and b.view['charge'][r].t is sq[q].t and b.view['energy'][r].t is sen[q].t
+                        and same_elems(b.view['stress'][r], sst[q]) and int(b.view['atype'][r]) == 2)
+            else:
+                E.prove(tagw + '.other_row%d_untouched' % r, same_elems(b.view['pos'][r], vb['pos'][r]) and b.view['charge'][r].t is vb['charge'][r].t and b.view['energy'][r].t is en_b[r].t
+                        and same_elems(b.view['stress'][r], vb['stress'][r]) and int(b.view['atype'][r]) == vb['atype'][r])
+        E.prove(tagw + '.source_unchanged', same_elems(src.view['pos'], spos) and same_elems(src.view['charge'], sq) and same_elems(src.view['energy'], sen))
+        wf(E, tagw, b)
+    b, vb = sym_atoms(E, L, 'b')
+    other = Atoms(atype=[1], pos=E.reals('opos', (1, 3)))
+    other.tag = [5]
+    try:
+        b[0] = other
+        E.prove('setitem.refuses_differing_property_sets', False)
+    except (ValueError, KeyError):
+        E.prove('setitem.refuses_differing_property_sets', True)
     # whole-property assignment: scalar / length-1 / full
     x = E.real('x')
     full = E.reals('f', (3,))
@@ -379,7 +428,11 @@ def _ops(am, np, rng):
         return s2, Model([dict(m.recs[i]) for i in idx_rows(ix, n)], m.symbols, m.masses)
 
     def setitem_atoms(s, m):
-        src = copy.deepcopy(s.atoms[0])
+        first = s.atoms[0]
+        # a source holding the same properties, acquired in the reverse order
+        src = am.Atoms(atype=first.atype.copy(), pos=first.pos.copy())
+        for k in reversed([k for k in first.view.keys() if k not in ('atype', 'pos')]):
+            src.view[k] = first.view[k].copy()
         s.atoms[-1] = src
         m.recs[-1] = dict(m.recs[0])
         return s, m
